@@ -309,6 +309,86 @@ func checkC19(P *Prog, r *Result) {
 			}
 		}
 	}
+	// ... and a copy has to be deep: what is copied element by element into a fresh container that then becomes the
+	// destination (`reflect.Copy(cp, def)`, `cp.Index(i).Set(def.Index(i))`) still shares the inner slices, maps and
+	// pointers of each element with the schema's default - `[][]string`, `[]struct{ Values []string }`. Accepted: an
+	// element that went through a recursive clone (a module function over reflect.Value that calls itself and allocates).
+	schemaOwned := func(fn *ssa.Function, v ssa.Value) []string {
+		var bad []string
+		for _, rt := range P.rootsOf(v) {
+			for _, cl := range P.resolveUnknownParam(g, P.classifyIn(fn, rt), 0, map[*ssa.Parameter]bool{}) {
+				if cl.class == mcSchema {
+					bad = append(bad, cl.rt.String())
+				}
+			}
+		}
+		return uniqSorted(bad)
+	}
+	isDeepClone := func(f *ssa.Function) bool {
+		if f == nil || f.Blocks == nil || !inModule(funcPkgPath(f)) {
+			return false
+		}
+		self, alloc := false, false
+		eachInstr(f, func(_ *ssa.BasicBlock, _ int, in ssa.Instruction) {
+			if ci := callOf(in); ci != nil && ci.static != nil {
+				if ci.static == f {
+					self = true
+				}
+				if isPkgFunc(ci.static, "reflect") && (ci.static.Name() == "MakeSlice" || ci.static.Name() == "MakeMapWithSize" || ci.static.Name() == "MakeMap") {
+					alloc = true
+				}
+			}
+		})
+		return self && alloc
+	}
+	ns := 0
+	for _, fn := range fns {
+		if isDeepClone(fn) {
+			continue // the clone itself: it copies a struct whole before it replaces the fields it can set
+		}
+		eachInstr(fn, func(_ *ssa.BasicBlock, _ int, in ssa.Instruction) {
+			ci := callOf(in)
+			if ci == nil || ci.static == nil || !isPkgFunc(ci.static, "reflect") {
+				return
+			}
+			var src ssa.Value
+			switch {
+			case ci.static.Name() == "Copy" && len(ci.args()) == 2:
+				src = ci.args()[1]
+				if c2, isCall := cvi(src).(*ssa.Call); isCall && isDeepClone(callOf(c2).static) {
+					ns++
+					r.ok("C19/default-not-aliased", fmt.Sprintf("%s#element-copy@%d", fname(fn), ns), P.ipos(in), "the elements copied are those of a deep clone ("+fname(callOf(c2).static)+")")
+					return
+				}
+			case ci.static.Name() == "Set" && len(ci.args()) == 2:
+				// element of a fresh container: recv is (MakeSlice(...)|New(...).Elem()).Index(i) ...
+				fresh := false
+				for _, rt := range P.rootsOf(ci.args()[0]) {
+					if c2, isCall := rt.v.(*ssa.Call); isCall && callOf(c2).static != nil && isPkgFunc(callOf(c2).static, "reflect") {
+						switch callOf(c2).static.Name() {
+						case "MakeSlice", "New", "MakeMap", "MakeMapWithSize":
+							fresh = true
+						}
+					}
+				}
+				if !fresh {
+					return
+				}
+				src = ci.args()[1]
+				if c2, isCall := cvi(src).(*ssa.Call); isCall && isDeepClone(callOf(c2).static) {
+					ns++
+					r.ok("C19/default-not-aliased", fmt.Sprintf("%s#element-copy@%d", fname(fn), ns), P.ipos(in), "the element is a deep clone ("+fname(callOf(c2).static)+")")
+					return
+				}
+			default:
+				return
+			}
+			if bad := schemaOwned(fn, src); len(bad) > 0 {
+				ns++
+				r.bad("C19/default-not-aliased", fmt.Sprintf("%s#shallow-copy@%d", fname(fn), ns), P.ipos(in), "elements owned by the schema are copied one level deep into a value that becomes the destination: the slices, maps and pointers inside each element stay shared with the schema's default (a nested default such as [][]string is modified through the result of the first call)", bad...)
+			}
+		})
+	}
 	r.floor("C19/default-not-aliased", 5)
 
 	// (c) validate-mode destination writes only on default / catch paths
